@@ -44,7 +44,15 @@ SHAPE_B_SCRIPT = [["connect"], ["run", 4.2], ["frames", 1], ["run", 0.2], ["part
 SHAPE_S_CONNS = [{"delay": 0.3, "drain": "suspfail"}, {"delay": 0.1, "drain": "drainfail"}, {"delay": 0.1, "drain": "susp"}]
 SHAPE_S_SCRIPT = [["connect"], ["run", 3.0], ["frames", 1], ["run", 0.5], ["eof"], ["run", 1.0]]
 SHAPES = {"A": (None, None), "B": (SHAPE_B_SCRIPT, SHAPE_B_CONNS), "S": (SHAPE_S_SCRIPT, SHAPE_S_CONNS)}
+# W: the first fault is a write error in send() (the status callback is told DISCONNECTED on the send() task)
+SHAPE_W_CONNS = [{}]
+SHAPE_W_SCRIPT = [["connect"], ["run", 2.0], ["frames", 2], ["run", 0.2], ["wmode", "fail"], ["send"], ["run", 1.0], ["frames", 1],
+                  ["run", 0.5]]
+SHAPES["W"] = (SHAPE_W_SCRIPT, SHAPE_W_CONNS)
 PAIR = {"raise": "ret", "slowraise": "slow"}
+ALWAYS_SEARCH = True      # the oracle is cheap (the sessions are shared with correspond) and some sessions exist only for it
+# oracle-only sessions: close() called from INSIDE a callback, i.e. on one of the client's own tasks (not a schedule of the LTS)
+INNER = [{"rcb_close_at": 1}, {"rcb_close_at": 2}, {"rcb_close_at": 3}, {"scb_close_on": 0}, {"scb_close_on": 1}]
 
 
 def _repo():
@@ -97,6 +105,15 @@ def close_specs(ctx):
             sp["inject"] = {"at": at, "ops": [["close"]]}
             sp["exc_rot"] = ctx.seed + at       # exception class of failing connection attempts (see vloop.Gateway._failure)
             inj.append((sp, {"client": m["client"], "cb": m["cb"], "shape": m["shape"], "at": at}))
+    for c in clients:
+        for sh in ("A", "B", "W"):
+            for cb in ("ret", "slow"):
+                for kw in INNER:
+                    sp = _spec(c, cb, sh)
+                    sp.update(kw)
+                    sp["exc_rot"] = ctx.seed
+                    tag = "rcb-close#%d" % kw["rcb_close_at"] if "rcb_close_at" in kw else "scb-close@%d" % kw["scb_close_on"]
+                    inj.append((sp, {"client": c, "cb": cb, "shape": sh + "/" + tag, "at": None, "oracle_only": True}))
     iobs = vloop.run_batch([dict(sp) for sp, _ in inj], _repo(), wall=6, procs=3)
     for (sp, m), o in zip(inj, iobs):
         m["obs"] = o
@@ -124,13 +141,15 @@ def correspond(ctx):
     failing_cases = [dict(_short(meta[idx[i]]), why="trace rejected by lts_accepts") for i in r["failing"]]
     bad_runs = 0
     for i, o in enumerate(obs):
+        if meta[i].get("oracle_only") and not o.get("spin") and not o.get("crash"):
+            continue        # judged by the property text only (search)
         if o.get("labels") is None:
             bad_runs += 1
             why = ("no progress: the client span without yielding (watchdog)" if o.get("spin") else
                    "crash: " + str(o.get("crash")) if o.get("crash") else "unlabelled block: " + str(o.get("unlabelled")))
             failing_cases.append(dict(_short(meta[i]), why=why))
     r["failing"] = list(r["failing"]) + [-1] * bad_runs
-    r["n"] = len(obs)
+    r["n"] = sum(1 for m in meta if not m.get("oracle_only"))
     nontrivial = [tuple(l[0] for l in o["labels"]) for o in obs if o.get("labels") and
                   any(l[0].startswith("AClose ") for l in o["labels"])]
     by_client, by_cb, by_shape, kinds = {}, {}, {}, {}
@@ -173,12 +192,29 @@ def judge(o, spec, twin=None):
                                         f"{o.get('beats')} beats, virtual time {o.get('vt')})"}
     if o.get("crash"):
         return {"key": "harness:crash", "what": f"{c}: run crashed: {o['crash']}"}
+    inner = spec.get("rcb_close_at") is not None or spec.get("scb_close_on") is not None
+    if inner:
+        w = _judge(o, spec, None, True)
+        if w:
+            w["key"] = "in-callback:" + w["key"]
+            w["what"] = w["what"] + f" [close() called from the {(o.get('close') or {}).get('from')}]"
+        return w
+    return _judge(o, spec, twin, False)
+
+
+def _judge(o, spec, twin, inner):
+    c = o["client"]
     st = [s[1] for s in o["status"]]
     if any(a == b for a, b in zip(st, st[1:])):
         return {"key": "status:repeated", "what": f"{c}: status callback got the same state twice in a row: {st}"}
     # once per state change, in order: the states the client went through (snapshot after every step), initial state dropped
     states = list(o["states"])
     changes = states[1:] if states and states[0] == 0 else states
+    if inner:
+        # two changes inside one event-loop step (DISCONNECTED then CLOSED from the same callback) are one snapshot: the status
+        # trace itself is the record of the changes here; it must end with CLOSED and contain it once
+        states = [0] + st
+        changes = st
     if st != changes:
         return {"key": "status:not-the-changes", "what": f"{c}: status callback trace {st} differs from the sequence of state "
                                                        f"changes {changes}"}
@@ -195,11 +231,12 @@ def judge(o, spec, twin=None):
             return {"key": "close:new-attempt", "what": f"{c}: {len(o['attempts']) - ac['attempts']} connection attempt(s) started "
                                                         f"after CLOSED (close() at t={cl['called']:.2f}, attempts at "
                                                         f"{[round(t, 2) for t in o['attempts']]})"}
-        if cl.get("returned") is None:
+        if cl.get("returned") is None and not (inner and cl.get("cancelled") is not None):
+            # (close() called from a callback cancels the task it runs on and unwinds with CancelledError: tolerated)
             return {"key": "close:never-returned", "what": f"{c}: close() called at t={cl['called']:.2f} never returned"}
         if len(o["rcb"]) > cl.get("rcb_at_return", 0):
             return {"key": "close:callback-after", "what": f"{c}: receive callback ran after close() had returned (t="
-                                                           f"{cl['returned']:.2f}): at {[round(t, 2) for t, _ in o['rcb'][cl['rcb_at_return']:]]}"}
+                                                           f"{(cl.get('returned') or cl.get('cancelled')):.2f}): at {[round(t, 2) for t, _ in o['rcb'][cl['rcb_at_return']:]]}"}
         ws = o["writers"]
         cur = o["cur_wid"]
         if cur >= 0 and not ws[cur]["closed"]:
@@ -208,9 +245,10 @@ def judge(o, spec, twin=None):
             late = [w["wid"] for w in ws if w["wid"] >= ac["writers"] and not w["closed"]]
             if late:
                 return {"key": "close:late-link-open", "what": f"{c}: connection(s) {late} came up after close() and were never closed"}
-        if o["pending"]:
+        pending = list(o["pending"])
+        if pending:
             return {"key": "close:tasks-pending", "what": f"{c}: tasks still pending {o['vt_end'] - cl['called']:.0f} virtual seconds "
-                                                          f"after close(): {o['pending']}"}
+                                                          f"after close(): {pending}"}
     if twin is not None and not twin.get("spin") and not twin.get("crash") and o.get("labels") and twin.get("labels"):
         a, b = _norm(o["labels"]), _norm(twin["labels"])
         if a != b or st != [s[1] for s in twin["status"]] or o["state"] != twin["state"] or \
